@@ -14,7 +14,7 @@ SPEC = {
             "Pairs in which a twin saw a Z3 'unknown', hit the budget or the watchdog are inconclusive. distinct = distinct "
             "(family, settings, seed, solution sequence)",
     "minimum": {"quick": {"pairs_judged": 20, "pairs_with_3_solutions": 12, "perturbed_delays": 250},
-                "thorough": {"pairs_judged": 1200, "pairs_with_3_solutions": 800}},
+                "thorough": {"pairs_judged": 340, "pairs_with_3_solutions": 240}},
     "assumptions": ["Z3's 500 ms budget is wall-clock: pairs with a Z3 'unknown' in either twin are set aside (the property is about "
                     "seeds, not load)", "sleep injection uses a private PRNG so the global random state is untouched"],
 }
